@@ -33,6 +33,9 @@ type RefSpec struct {
 	// SubjVar: how this manifest spells its subject descriptor: 0 = exactly, 1 = under the
 	// Docker media type, 2 = without size. The digest is what names the subject.
 	SubjVar int `json:"subj_var,omitempty"`
+	// PreUnindexed (with Pre): the manifest is in the registry before the run but no
+	// referrers index lists it - stored by a client that does not maintain the tag schema
+	PreUnindexed bool `json:"pre_unindexed,omitempty"`
 }
 
 type ReferrersParams struct {
@@ -92,6 +95,9 @@ func (p *referrersProp) Gen(r *Rand, tier string, idx int) any {
 		}
 		if r.Chance(0.25) {
 			rs.SubjVar = r.Range(1, 2)
+		}
+		if rs.Pre && r.Chance(0.25) {
+			rs.PreUnindexed = true
 		}
 		rp.Refs = append(rp.Refs, rs)
 	}
@@ -305,6 +311,9 @@ func (p *referrersProp) run(rc *RunCtx, rp *ReferrersParams, info *RunInfo) *Ver
 			e := refs[i].desc
 			e.ArtifactType = refs[i].at
 			e.Annotations = annotationsOf(refs[i].data)
+			if rs.PreUnindexed {
+				continue
+			}
 			preIndex[rs.Subject] = append(preIndex[rs.Subject], e)
 		}
 	}
@@ -453,6 +462,7 @@ func (p *referrersProp) run(rc *RunCtx, rp *ReferrersParams, info *RunInfo) *Ver
 		for _, d := range model {
 			modelSet[d.Digest] = d
 		}
+		foreign := map[digest.Digest]bool{}
 		for i, rs := range rp.Refs {
 			if rs.Subject != s {
 				continue
@@ -460,6 +470,14 @@ func (p *referrersProp) run(rc *RunCtx, rp *ReferrersParams, info *RunInfo) *Ver
 			d := refs[i].desc.Digest
 			fo := finalOp[i]
 			expectLive, judged := rs.Pre, true
+			if rs.Pre && rs.PreUnindexed && (fo == nil || fo.err != nil || fo.op.Op != "push") {
+				// nobody is obliged to list a manifest that reached the registry behind the
+				// client's back, unless it was pushed (again) through this Repository
+				foreign[d] = true
+				if fo == nil || fo.err != nil {
+					continue
+				}
+			}
 			if fo != nil {
 				var re *remote.ReferrersError
 				idxDel := fo.err != nil && errors.As(fo.err, &re) && re.IsReferrersIndexDelete()
@@ -512,6 +530,9 @@ func (p *referrersProp) run(rc *RunCtx, rp *ReferrersParams, info *RunInfo) *Ver
 				}
 			}
 			for d := range modelSet {
+				if foreign[d] {
+					continue
+				}
 				if count[d] == 0 {
 					return violation("referrers-differ-from-api-model", "", "Referrers(subject %d) omits stored referrer %s\n%s", s, d.Encoded()[:12], describe())
 				}
